@@ -245,3 +245,15 @@ Theorem c01_c_int_ser_split_matches_walker : forall f,
   TplTie.emits TplTieBase.KCursor TplTie.pat1 (TplTie.c_int_ser f) = true.
 Proof. exact TplTie.c_int_ser_split_matches_walker. Qed.
 Print Assumptions c01_c_int_ser_split_matches_walker.
+
+(* the C tables on the default option set (what Walker.v models) - insensitive to option-only template fixes *)
+Theorem c01_c_default_templates_match_walker :
+  Gen_CodecTpl.gen_c_ser_macros_default = TplTieData.walker_c_ser_macros_default /\
+  Gen_CodecTpl.gen_c_des_macros_default = TplTieData.walker_c_des_macros_default.
+Proof. exact TplTie.c_default_templates_match_walker. Qed.
+Print Assumptions c01_c_default_templates_match_walker.
+
+(* with enable_override_variable_array_capacity every store that bypasses the checked primitives is preceded by `_guard` *)
+Theorem c01_c_override_stores_guarded : TplTie.c_ser_guarded = true.
+Proof. exact TplTie.c_override_stores_guarded. Qed.
+Print Assumptions c01_c_override_stores_guarded.
